@@ -1809,7 +1809,8 @@ class CxxParser:
 
         # placeholder type, skip typename
         if tok.type == "auto":
-            at_type = parsed_type = Type(PQName([AutoSpecifier()]))
+            parsed_type = Type(PQName([AutoSpecifier()]))
+            at_type = Type(PQName([AutoSpecifier()]))
         else:
             # required typename + decorators
             parsed_type, mods = self._parse_type(tok)
